@@ -577,6 +577,14 @@ func (f *Frame) knownExternal(x *ssa.Call, callee *ssa.Function, args []AV, key 
 			}
 		}
 		return AOpaque{key, x.Type()}, true
+	case "math/rand.Intn", "math/rand.Int31n", "math/rand.Int63n":
+		// contract: 0 <= result < n
+		if n, ok := args[0].(AInt); ok {
+			if cn, isC := constOf(n); isC && cn > 0 {
+				return AInt{a: affSym(f.an.u.sym(key, 0, cn-1))}, true
+			}
+		}
+		return AInt{a: affSym(f.an.u.sym(key, 0, bigNum))}, true
 	case "errors.New", "fmt.Errorf":
 		return AIface{val: AOpaque{key, x.Type()}, typ: types.Typ[types.Invalid]}, true
 	}
